@@ -330,7 +330,7 @@ fn check(s: &Script) -> Verdict {
                 return fail("expr", format!("expression is {}, expected {}", show_expr(rule.expr()), show_expr(&s.expr)));
             }
             if !s.expr_text.is_empty() {
-                match Expr::parse(&s.expr_text) {
+                match crate::core::parse_guarded(&s.expr_text).unwrap_or(Err("panic".into())) {
                     Ok(e) if same_expr(&e, rule.expr()) => {}
                     other => {
                         return fail(
